@@ -2,6 +2,7 @@
 import hashlib
 import json
 import multiprocessing
+import signal
 import os
 import random
 import sys
@@ -27,6 +28,41 @@ class PathEnd(BaseException):
 
 class _Frontier(PathEnd):
     pass
+
+
+class PathTimeout(BaseException):
+    """One path runs for longer than PATH_LIMIT_S: the code under test does not terminate on these inputs (BaseException
+    so that the last-resort `except Exception` guards of the code under test do not swallow it)."""
+
+
+PATH_LIMIT_S = float(os.environ.get('VERIF_PATH_LIMIT') or 10)
+
+
+_ARMED = [False]
+
+
+def _on_alarm(signum, frame):
+    if _ARMED[0]:
+        raise PathTimeout()
+
+
+class _Watchdog:
+    """the timer repeats every second after the limit: an exception raised while a destructor or a ctypes callback runs
+    is swallowed by the interpreter, the next one lands in ordinary code"""
+    def __enter__(self):
+        try:
+            signal.signal(signal.SIGALRM, _on_alarm)
+            _ARMED[0] = True
+            signal.setitimer(signal.ITIMER_REAL, PATH_LIMIT_S, 1.0)
+            self.armed = True
+        except ValueError:          # not in the main thread
+            self.armed = False
+
+    def __exit__(self, *exc):
+        _ARMED[0] = False
+        if self.armed:
+            signal.setitimer(signal.ITIMER_REAL, 0)
+        return False
 
 
 class HarnessError(Exception):
@@ -495,6 +531,15 @@ def _site(tb_exc):
     return site
 
 
+def _entry_site(tb_exc):
+    """entry point of the code under test in a traceback (stable for a loop that is interrupted anywhere)"""
+    for fr in traceback.extract_tb(tb_exc.__traceback__):
+        fn = fr.filename.replace('\\', '/')
+        if '/supvisors/' in fn and '/tests/' not in fn:
+            return f"{fn.split('/supvisors/')[-1]}:{fr.name}"
+    return 'harness'
+
+
 def _jsonable(x):
     if isinstance(x, dict):
         return {str(k): _jsonable(v) for k, v in x.items()}
@@ -527,8 +572,11 @@ def run_concrete(scenario, params, inputs):
     proxies._ENGINE[0] = None
     try:
         try:
-            scenario(src, **params)
+            with _Watchdog():
+                scenario(src, **params)
             fail = None
+        except PathTimeout as exc:
+            fail = ('path-does-not-terminate', {'site': _entry_site(exc), 'limit_s': PATH_LIMIT_S})
         except CheckFailed as exc:
             fail = (exc.tag, exc.ctx)
         except HarnessError:
@@ -598,6 +646,7 @@ def _explore_subtree(scenario, params, harness, seed, prefix, fixed, deadline, m
     proxies._ENGINE[0] = eng
     rnd = random.Random(seed)
     leftover = None
+    timeouts = 0
     try:
         if resume and not eng.backtrack():
             return res, jobs, None
@@ -612,9 +661,15 @@ def _explore_subtree(scenario, params, harness, seed, prefix, fixed, deadline, m
             fail = None
             try:
                 try:
-                    scenario(src, **params)
+                    with _Watchdog():
+                        scenario(src, **params)
                     eng.model()          # raises PathEnd if a late assumption made the path infeasible
                     completed = True
+                except PathTimeout as exc:
+                    fail = ('path-does-not-terminate', {'site': _entry_site(exc), 'limit_s': PATH_LIMIT_S,
+                                                        '_traceback': traceback.format_exc()[-1500:]})
+                    completed = True
+                    timeouts += 1
                 except _Frontier:
                     jobs.append([list(p) for p in eng.prefix])
                 except PathEnd:
@@ -670,7 +725,9 @@ def _explore_subtree(scenario, params, harness, seed, prefix, fixed, deadline, m
                             res.validated += 1
             finally:
                 eng.end_path()
-            if len(res.errors) > 5:
+            if len(res.errors) > 5 or timeouts >= 1:
+                # (a path that does not terminate is a violation by itself: this sub-tree is not explored further, each
+                # such path costs PATH_LIMIT_S)
                 res.exhaustive = False
                 break
             if not eng.backtrack():
@@ -692,6 +749,9 @@ _JOB_CTX = {}
 
 def _worker(i):
     c = _JOB_CTX
+    if os.environ.get('VERIF_DEBUG_HANG'):
+        import faulthandler
+        faulthandler.dump_traceback_later(float(os.environ['VERIF_DEBUG_HANG']), exit=True)
     prefix, fixed, resume = c['jobs'][i]
     deadline = c['deadline']
     if deadline is not None:
